@@ -1038,6 +1038,10 @@ func init() {
 		x.spawn(fr, args[0], nil)
 		return nil
 	})
+	rt("PreemptionBound", func(x *Exec, fr *frame, args []Value) Value {
+		x.preemptBound = int(x.concreteInt(args[0], "PreemptionBound"))
+		return nil
+	})
 	rt("WaitUntil", func(x *Exec, fr *frame, args []Value) Value {
 		pred := args[0]
 		x.schedPoint()
